@@ -384,6 +384,8 @@ type verifC36Call struct {
 }
 
 var verifC36LineRE = regexp.MustCompile(`^(\d+)\s+(.*)$`)
+var verifC36RetRE = regexp.MustCompile(`\)\s+= `)
+var verifC36TmpRE = regexp.MustCompile(`-tmp-\d+$`)
 var verifC36ResumedRE = regexp.MustCompile(`^<\.\.\. (\w+) resumed>\s?(.*)$`)
 
 func verifC36SplitArgs(s string) []string {
@@ -439,11 +441,15 @@ func verifC36ParseCall(text string) (*verifC36Call, bool) {
 	if p <= 0 {
 		return nil, false
 	}
-	q := strings.LastIndex(text, ") = ")
+	all := verifC36RetRE.FindAllStringIndex(text, -1)
+	if len(all) == 0 {
+		return nil, false
+	}
+	q, qe := all[len(all)-1][0], all[len(all)-1][1]
 	if q < p {
 		return nil, false
 	}
-	return &verifC36Call{name: text[:p], args: verifC36SplitArgs(text[p+1 : q]), ret: strings.TrimSpace(text[q+4:]), raw: text}, true
+	return &verifC36Call{name: text[:p], args: verifC36SplitArgs(text[p+1 : q]), ret: strings.TrimSpace(text[qe:]), raw: text}, true
 }
 
 func verifC36Str(a string) (string, bool) {
@@ -506,15 +512,16 @@ func (tr *verifC36Trace) parseTrace(path, markDir string) error {
 			continue
 		}
 		pid, text := m[1], m[2]
-		if strings.HasSuffix(text, "<unfinished ...>") {
-			pending[pid] = strings.TrimSuffix(text, "<unfinished ...>")
+		if strings.HasSuffix(strings.TrimRight(text, " "), "<unfinished ...>") {
+			pending[pid] = strings.TrimSuffix(strings.TrimRight(text, " "), "<unfinished ...>")
 			continue
 		}
 		if rm := verifC36ResumedRE.FindStringSubmatch(text); rm != nil {
-			text = strings.TrimRight(pending[pid], " ") + " " + rm[2]
-			if !strings.HasPrefix(strings.TrimSpace(text), rm[1]+"(") {
-				text = rm[1] + "(" + rm[2]
+			first, ok := pending[pid]
+			if !ok || !strings.HasPrefix(first, rm[1]+"(") {
+				return fmt.Errorf("trace line %d: resumed syscall without its beginning: %s", ln+1, line)
 			}
+			text = strings.TrimRight(first, " ") + " " + strings.TrimLeft(rm[2], " ")
 			delete(pending, pid)
 		}
 		if strings.HasPrefix(text, "+++") || strings.HasPrefix(text, "---") {
@@ -563,14 +570,6 @@ func (tr *verifC36Trace) parseTrace(path, markDir string) error {
 		}
 	}
 	return nil
-}
-
-func (tr *verifC36Trace) pathArgs(c *verifC36Call) (dirfdIdx int) {
-	switch c.name {
-	case "openat", "mkdirat", "unlinkat", "fchmodat", "fchmodat2", "newfstatat", "fstatat64", "statx", "readlinkat", "faccessat", "faccessat2", "utimensat", "fchownat":
-		return 0
-	}
-	return -1
 }
 
 func (tr *verifC36Trace) absPath(c *verifC36Call, dirfdArg, pathArg int) (string, error) {
@@ -1051,7 +1050,9 @@ func (tr *verifC36Trace) hash(ino int, ops []int) [32]byte {
 func (tr *verifC36Trace) key(ents []verifC36Entry) string {
 	var sb strings.Builder
 	for _, e := range ents {
-		sb.WriteString(e.Path)
+		// os.CreateTemp suffixes are random: name temporaries by inode (creation order), so that keys
+		// are comparable across shards and runs
+		sb.WriteString(verifC36TmpRE.ReplaceAllString(e.Path, fmt.Sprintf("-tmp-#ino%d", e.Ino)))
 		if e.Dir {
 			sb.WriteString("/;")
 			continue
@@ -1482,9 +1483,8 @@ func TestVerif_C36(t *testing.T) {
 	}
 	for i, l := range childLog {
 		if l.Err != "" {
-			t.Fatalf("C36 fixture: operation %s failed in the traced run: %s", l.Op, l.Err)
+			t.Fatalf("C36 fixture: operation %s (%d) failed in the traced run: %s", l.Op, i, l.Err)
 		}
-		_ = i
 	}
 	if marks != 2*len(hist) {
 		t.Fatalf("C36 infrastructure: %d markers in the trace, expected %d", marks, 2*len(hist))
@@ -1576,42 +1576,33 @@ func TestVerif_C36(t *testing.T) {
 		}
 	}
 
-	// durable[u] at crash point i  <=>  covered[u] < i   (index of the first covering fsync, N+1 if none)
+	// update u is durable at crash point i  <=>  covered[u] < i  (index of the fsync that completes its
+	// coverage, N+1 if none)
+	firstSync := func(after int, match func(su *verifC36Upd) bool) int {
+		for s := after + 1; s < N; s++ {
+			if su := &tr.upd[s]; su.Kind == verifC36KFsync && match(su) {
+				return s
+			}
+		}
+		return N + 1
+	}
 	covered := make([]int, N)
 	for u := range tr.upd {
 		covered[u] = N + 1
 		uu := &tr.upd[u]
-		if !uu.mutating() {
-			continue
+		dirSync := func(d int) int {
+			return firstSync(u, func(su *verifC36Upd) bool { return su.DirSync && su.Ino == d })
 		}
-		for s := u + 1; s < N; s++ {
-			su := &tr.upd[s]
-			if su.Kind != verifC36KFsync {
-				continue
-			}
-			ok := false
-			switch uu.Kind {
-			case verifC36KWrite, verifC36KSetSize:
-				ok = !su.DirSync && su.Ino == uu.Ino
-			case verifC36KCreate, verifC36KUnlink:
-				ok = su.DirSync && su.Ino == uu.Dir
-			case verifC36KMkdir:
-				ok = su.DirSync && (su.Ino == uu.Dir || su.Ino == uu.Ino)
-			case verifC36KRename:
-				ok = su.DirSync && su.Ino == uu.Dir2
-				if ok && uu.Dir != uu.Dir2 {
-					ok = false
-					for s2 := u + 1; s2 < N; s2++ {
-						if tr.upd[s2].Kind == verifC36KFsync && tr.upd[s2].Ino == uu.Dir && s2 <= s {
-							ok = true
-						}
-					}
-				}
-			}
-			if ok {
-				covered[u] = s
-				break
-			}
+		switch uu.Kind {
+		case verifC36KWrite, verifC36KSetSize:
+			covered[u] = firstSync(u, func(su *verifC36Upd) bool { return !su.DirSync && su.Ino == uu.Ino })
+		case verifC36KCreate, verifC36KUnlink:
+			covered[u] = dirSync(uu.Dir)
+		case verifC36KMkdir:
+			// assumption 3: an fsync of the new directory itself also persists its entry in the parent
+			covered[u] = min(dirSync(uu.Dir), dirSync(uu.Ino))
+		case verifC36KRename:
+			covered[u] = max(dirSync(uu.Dir), dirSync(uu.Dir2))
 		}
 	}
 
@@ -1630,6 +1621,7 @@ func TestVerif_C36(t *testing.T) {
 		return out
 	}
 
+	samples := map[string]int{}
 	evaluate := func(caseKey, model string, i int, seen map[string]bool, exp []verifC36Expect, during string, keep func(int) bool, variant string, sample bool) {
 		r.Count("crash_states_enumerated", 1)
 		st := tr.build(i, keep)
@@ -1658,7 +1650,8 @@ func TestVerif_C36(t *testing.T) {
 		if panicked {
 			probs = append(probs, verifC36Problem{Kind: "panic", Handle: "-", What: "restic panicked on the crash state: " + msg})
 		}
-		if sample {
+		if sample && samples[model] < 2 {
+			samples[model]++
 			r.Sample(map[string]any{"model": model, "crash_point": i, "during": during, "state": key, "outcome": outcome, "expect": verifC36ExpectString(hs, exp)})
 		}
 		for _, p := range probs {
@@ -1672,7 +1665,7 @@ func TestVerif_C36(t *testing.T) {
 			}
 			detail := map[string]any{"model": model, "crash_point": i, "during": during, "variant": variant,
 				"expect": verifC36ExpectString(hs, exp), "outcome": outcome, "files_in_crash_state": files, "updates": describe(i, keep)}
-			r.Violationf(caseKey, fmt.Sprintf("C36|%s|%s|%s|%s", model, p.Kind, p.Handle, during), detail,
+			r.Violationf(caseKey, fmt.Sprintf("C36|%s|%s|%s", model, p.Kind, p.Handle), detail,
 				"%s model, crash %s (after update %d of %d): %s", model, during, i, N, p.What)
 		}
 	}
@@ -1696,20 +1689,13 @@ func TestVerif_C36(t *testing.T) {
 		seen := map[string]bool{}
 		for j := barrier; j <= i; j++ {
 			jj := j
-			evaluate(ck, "ordered", i, seen, exp, during, func(idx int) bool { return idx < jj }, fmt.Sprintf("prefix j=%d", j), i == N/3 && j == barrier)
+			evaluate(ck, "ordered", i, seen, exp, during, func(idx int) bool { return idx < jj }, fmt.Sprintf("prefix j=%d", j), j < i && j > barrier)
 		}
 	}
 
-	// ---- weak model
+	// ---- weak model (crash points with many subsets are split into parts so that shards stay balanced)
 	maxPending := 0
 	for i := 0; i <= N; i++ {
-		ck := fmt.Sprintf("weak|i=%d", i)
-		if !r.Case(ck) {
-			continue
-		}
-		if r.Expired() {
-			break
-		}
 		var pend []int
 		for u := 0; u < i; u++ {
 			uu := &tr.upd[u]
@@ -1720,35 +1706,50 @@ func TestVerif_C36(t *testing.T) {
 				pend = append(pend, u)
 			}
 		}
-		if len(pend) > maxPending {
-			maxPending = len(pend)
-		}
 		pos := map[int]int{}
 		for k, u := range pend {
 			pos[u] = k
 		}
+		total := 0
+		verifC36Subsets(len(pend), full, nd, nk, func([]bool) { total++ })
+		parts := 1
+		if total > 512 {
+			parts = 16
+		}
 		exp, during := tr.expect(i)
-		seen := map[string]bool{}
-		n := 0
-		verifC36Subsets(len(pend), full, nd, nk, func(dropped []bool) {
-			if n&1023 == 1023 && r.Expired() {
-				return
+		for part := 0; part < parts; part++ {
+			ck := fmt.Sprintf("weak|i=%d|part=%d/%d", i, part, parts)
+			if !r.Case(ck) {
+				continue
 			}
-			n++
-			keep := func(idx int) bool {
-				if k, ok := pos[idx]; ok {
-					return !dropped[k]
+			if r.Expired() {
+				break
+			}
+			if len(pend) > maxPending {
+				maxPending = len(pend)
+			}
+			seen := map[string]bool{}
+			n := -1
+			verifC36Subsets(len(pend), full, nd, nk, func(dropped []bool) {
+				n++
+				if n%parts != part || (n&255 == 255 && r.Expired()) {
+					return
 				}
-				return true
-			}
-			var d []string
-			for k, u := range pend {
-				if dropped[k] {
-					d = append(d, strconv.Itoa(u))
+				keep := func(idx int) bool {
+					if k, ok := pos[idx]; ok {
+						return !dropped[k]
+					}
+					return true
 				}
-			}
-			evaluate(ck, "weak", i, seen, exp, during, keep, "dropped updates ["+strings.Join(d, ",")+"]", (i == N/2 || i == N-3) && n == 3)
-		})
+				var d []string
+				for k, u := range pend {
+					if dropped[k] {
+						d = append(d, strconv.Itoa(u))
+					}
+				}
+				evaluate(ck, "weak", i, seen, exp, during, keep, "dropped updates ["+strings.Join(d, ",")+"]", len(d) > 0 && i > N/3)
+			})
+		}
 	}
 	if maxPending > 0 {
 		r.Count(fmt.Sprintf("crash_points_shard_max_pending_%02d", maxPending), 1)
